@@ -16,6 +16,7 @@ package collection
 import (
 	"fmt"
 	"math/bits"
+	"runtime"
 	"sort"
 	"sync"
 	"testing"
@@ -582,4 +583,236 @@ func TestVerif_C09_window_concurrent(t *testing.T) {
 			return c
 		},
 		func(c c09cCase) kit.Verdict { return c09cInterp(t, c) })
+}
+
+// Slow reducer: one Reduce call whose callback stalls (blocked on a channel) at
+// its At-th bucket while the clock advances by D and another goroutine then
+// calls Add N times. Oracle (consistent snapshot): the buckets this single call
+// reports must be the reference window at ONE instant between the call's start
+// and its return - any bucket index cur(start)..cur(return) with the adds made
+// before the call, or the instant of return with the first j of the concurrent
+// adds (an Add that has been called but has not returned may or may not have
+// taken effect). Nothing older than the window at the call's start, nothing
+// visible lost, no mixture of two instants.
+//
+// The unchanged code holds the window lock during the callbacks, so the
+// concurrent Add parks on the mutex, which is NOT a durable block for synctest:
+// the harness therefore never waits for the adder while the reducer is stalled
+// (no kit.Wait, no virtual sleep); it yields the processor a bounded number of
+// times, looks whether the Add has returned, resumes the reducer and only then
+// waits for the adder on a channel.
+type c09rCase struct {
+	Size int     `json:"size"`
+	Iv   int64   `json:"iv"`
+	Ign  bool    `json:"ign"`
+	Pre  []int64 `json:"pre"` // advance before each preliminary Add, ns
+	D0   int64   `json:"d0"`  // advance between the last preliminary Add and the Reduce call
+	At   int     `json:"at"`  // the callback invocation (0-based) that stalls
+	D    int64   `json:"d"`   // advance while stalled
+	N    int     `json:"n"`   // concurrent adds issued after the advance
+}
+
+func c09rWindow(adds []c09wAdd, cur, size int64, ign bool) string {
+	lo, hi := cur-size, cur
+	if ign {
+		hi = cur - 1
+	}
+	m := map[int64]*c09wBucket{}
+	for _, a := range adds {
+		if a.bucket > lo && a.bucket <= hi {
+			b := m[a.bucket]
+			if b == nil {
+				b = &c09wBucket{}
+				m[a.bucket] = b
+			}
+			b.sum |= 1 << uint(a.id)
+			b.count++
+		}
+	}
+	var l []c09wBucket
+	for _, b := range m {
+		l = append(l, *b)
+	}
+	sort.Slice(l, func(i, j int) bool { return l[i].sum < l[j].sum })
+	return fmt.Sprint(l)
+}
+
+func c09rInterp(t *testing.T, c c09rCase) (v kit.Verdict) {
+	if c.Size < 1 || c.Iv <= 0 || len(c.Pre)+c.N > c09wMaxAdds || c.D < 0 || c.D0 < 0 || c.At < 0 || c.N < 0 || c.D/c.Iv > 1000 {
+		v.Excluded = true
+		return v
+	}
+	for _, d := range c.Pre {
+		if d < 0 {
+			v.Excluded = true
+			return v
+		}
+	}
+	var fail string
+	classes := map[string]bool{}
+	size := int64(c.Size)
+	res := kit.Bubble(t, func() {
+		var opts []RollingWindowOption
+		if c.Ign {
+			opts = append(opts, IgnoreCurrentBucket())
+		}
+		rw := NewRollingWindow(c.Size, time.Duration(c.Iv), opts...)
+		var el int64
+		var adds []c09wAdd
+		for _, d := range c.Pre {
+			time.Sleep(time.Duration(d))
+			el += d
+			rw.Add(float64(uint64(1) << uint(len(adds))))
+			adds = append(adds, c09wAdd{bucket: el / c.Iv, id: len(adds)})
+		}
+		time.Sleep(time.Duration(c.D0))
+		el += c.D0
+		pre := append([]c09wAdd(nil), adds...)
+		startCur := el / c.Iv
+
+		stalled := make(chan struct{})
+		resume := make(chan struct{})
+		reduceDone := make(chan struct{})
+		var got []c09wBucket
+		bad := ""
+		go func() {
+			defer close(reduceDone)
+			calls := 0
+			rw.Reduce(func(b *Bucket) {
+				if calls == c.At {
+					close(stalled)
+					<-resume
+				}
+				calls++
+				sum, count := b.Sum, b.Count
+				if sum == 0 && count == 0 {
+					return
+				}
+				u := uint64(sum)
+				if sum < 0 || float64(u) != sum {
+					bad = fmt.Sprintf("bucket sum %v is not a sum of added values", sum)
+					return
+				}
+				got = append(got, c09wBucket{sum: u, count: count})
+			})
+		}()
+		addReturnedDuringReduce := false
+		select {
+		case <-reduceDone:
+			classes["no-stall"] = true
+		case <-stalled:
+			classes["stalled"] = true
+			time.Sleep(time.Duration(c.D)) // only the stalled reducer exists: virtual time advances
+			el += c.D
+			addDone := make(chan struct{})
+			if c.N > 0 {
+				for j := 0; j < c.N; j++ {
+					adds = append(adds, c09wAdd{bucket: el / c.Iv, id: len(adds)})
+				}
+				first := len(pre)
+				go func() {
+					defer close(addDone)
+					for j := 0; j < c.N; j++ {
+						rw.Add(float64(uint64(1) << uint(first+j)))
+					}
+				}()
+				// bounded, clock-free look: has the Add returned although a reduction is in progress?
+			yield:
+				for i := 0; i < 2000; i++ {
+					runtime.Gosched()
+					select {
+					case <-addDone:
+						addReturnedDuringReduce = true
+						break yield
+					default:
+					}
+				}
+			} else {
+				close(addDone)
+			}
+			close(resume)
+			<-reduceDone
+			<-addDone
+		}
+		if addReturnedDuringReduce {
+			classes["add-returned-during-reduce"] = true
+		}
+		if bad != "" {
+			fail = "stalled Reduce: " + bad
+			return
+		}
+		sort.Slice(got, func(i, j int) bool { return got[i].sum < got[j].sum })
+		gs := fmt.Sprint(got)
+		endCur := el / c.Iv
+		var legal []string
+		ok := false
+		for cur := startCur; cur <= endCur && !ok; cur++ {
+			w := c09rWindow(pre, cur, size, c.Ign)
+			legal = append(legal, fmt.Sprintf("bucket %d: %s", cur, w))
+			ok = w == gs
+		}
+		for j := 1; j <= len(adds)-len(pre) && !ok; j++ {
+			w := c09rWindow(adds[:len(pre)+j], endCur, size, c.Ign)
+			legal = append(legal, fmt.Sprintf("bucket %d with %d concurrent adds: %s", endCur, j, w))
+			ok = w == gs
+		}
+		if !ok {
+			if len(legal) > 12 {
+				legal = append(legal[:6], legal[len(legal)-6:]...)
+			}
+			fail = fmt.Sprintf("one Reduce call (started in bucket %d, stalled at callback %d for %dns, %d concurrent adds in bucket %d) reported %s, which is the window at no single instant of the call; legal: %v",
+				startCur, c.At, c.D, c.N, endCur, gs, legal)
+			return
+		}
+		// quiescent: everything added must now be accounted for exactly
+		var fin []c09wBucket
+		rw.Reduce(func(b *Bucket) {
+			if b.Sum != 0 || b.Count != 0 {
+				fin = append(fin, c09wBucket{sum: uint64(b.Sum), count: b.Count})
+			}
+		})
+		sort.Slice(fin, func(i, j int) bool { return fin[i].sum < fin[j].sum })
+		if w := c09rWindow(adds, endCur, size, c.Ign); fmt.Sprint(fin) != w {
+			fail = fmt.Sprintf("after the stalled Reduce and the concurrent adds: Reduce saw %v, reference %s", fin, w)
+			return
+		}
+		if endCur > startCur {
+			classes["boundary-passed-while-stalled"] = true
+		}
+	})
+	v.NonTrivial = classes["stalled"] && classes["boundary-passed-while-stalled"] && c.N > 0 && len(c.Pre) > 0
+	for k := range classes {
+		v.Classes = append(v.Classes, k)
+	}
+	sort.Strings(v.Classes)
+	if fail != "" {
+		v.Fail = fail
+	} else if !res.OK() {
+		v.Fail = "bubble: " + res.String()
+	}
+	return v
+}
+
+func TestVerif_C09_window_slow_reducer(t *testing.T) {
+	kit.Run(t, "C09", "window-slow-reducer", kit.Opts{Quick: 1500, Thorough: 48000},
+		func(rt *rapid.T) c09rCase {
+			c := c09rCase{
+				Size: rapid.IntRange(1, 8).Draw(rt, "size"),
+				Iv:   rapid.SampledFrom(c09wIntervals).Draw(rt, "iv"),
+				Ign:  rapid.IntRange(0, 3).Draw(rt, "ign") == 0,
+			}
+			adv := func(label string) int64 {
+				return rapid.SampledFrom([]int64{0, c.Iv / 2, c.Iv - 1, c.Iv, c.Iv, c.Iv + 1, 2 * c.Iv, int64(c.Size-1) * c.Iv, int64(c.Size) * c.Iv, int64(c.Size+1) * c.Iv}).Draw(rt, label)
+			}
+			n := rapid.IntRange(0, 2*c.Size+2).Draw(rt, "npre")
+			for i := 0; i < n; i++ {
+				c.Pre = append(c.Pre, rapid.SampledFrom([]int64{0, c.Iv / 2, c.Iv, c.Iv, c.Iv, 2 * c.Iv}).Draw(rt, "pre"))
+			}
+			c.D0 = rapid.SampledFrom([]int64{0, 0, c.Iv / 2, c.Iv, 2 * c.Iv}).Draw(rt, "d0")
+			c.At = rapid.IntRange(0, c.Size-1).Draw(rt, "at")
+			c.D = adv("d")
+			c.N = rapid.IntRange(0, 3).Draw(rt, "n")
+			return c
+		},
+		func(c c09rCase) kit.Verdict { return c09rInterp(t, c) })
 }
